@@ -29,7 +29,23 @@ type RWMutex struct {
 	writer  bool
 	readers int
 	queue   []*waiter
+
+	// token mode: writers that are waiting in Lock. sync.RWMutex makes a pending
+	// writer exclude new readers; TryLock in a loop would not, so it is modelled
+	// here (a recursive read lock with a writer arriving in between is a deadlock
+	// of the real mutex and must be one under the token scheduler).
+	pendingWriters int
 }
+
+// The token scheduler runs one goroutine at a time and hands the token over
+// with raw system calls, which the race detector does not see: these helpers
+// are not instrumented so that the detector reports the program's races only.
+//
+//go:norace
+func (m *RWMutex) pendAdd(d int) { m.pendingWriters += d }
+
+//go:norace
+func (m *RWMutex) pend() int { return m.pendingWriters }
 
 func (m *RWMutex) Lock() {
 	switch simrt.Mode() {
@@ -37,8 +53,12 @@ func (m *RWMutex) Lock() {
 		m.real.Lock()
 	case simrt.ModeToken:
 		simrt.Y(-1)
-		for !m.real.TryLock() {
-			simrt.BlockFn(m)
+		if !m.real.TryLock() {
+			m.pendAdd(1)
+			for !m.real.TryLock() {
+				simrt.BlockFn(m)
+			}
+			m.pendAdd(-1)
 		}
 	default:
 		m.mu.Lock()
@@ -80,7 +100,7 @@ func (m *RWMutex) RLock() {
 		m.real.RLock()
 	case simrt.ModeToken:
 		simrt.Y(-3)
-		for !m.real.TryRLock() {
+		for m.pend() > 0 || !m.real.TryRLock() {
 			simrt.BlockFn(m)
 		}
 	default:
